@@ -103,7 +103,37 @@ func ScratchDir(tag string) (string, error) {
 	if _, err := os.Stat(base); err != nil {
 		base = os.TempDir()
 	}
-	return os.MkdirTemp(base, "verif-"+tag+"-")
+	return os.MkdirTemp(base, fmt.Sprintf("verif-%s-p%d-", tag, os.Getpid()))
+}
+
+// CleanStaleScratch removes scratch directories left behind by processes that no longer exist (killed runs).
+func CleanStaleScratch() {
+	for _, base := range []string{"/dev/shm", os.TempDir()} {
+		ents, err := os.ReadDir(base)
+		if err != nil {
+			continue
+		}
+		for _, e := range ents {
+			var tag string
+			var pid int
+			name := e.Name()
+			if !strings.HasPrefix(name, "verif-") {
+				continue
+			}
+			i := strings.Index(name, "-p")
+			if i < 0 {
+				continue
+			}
+			if _, err := fmt.Sscanf(name[i:], "-p%d-", &pid); err != nil || pid <= 0 {
+				continue
+			}
+			_ = tag
+			if _, err := os.Stat(fmt.Sprintf("/proc/%d", pid)); err == nil {
+				continue // owner is alive
+			}
+			_ = os.RemoveAll(filepath.Join(base, name))
+		}
+	}
 }
 
 // ---------------------------------------------------------------------------
